@@ -8,8 +8,8 @@ open Scenic.Rewrites
 def cfg : Cfg where
   tracked := ["ego", "workspace"]
   globalParams := "globalParameters"
-  builtin := ["globalParameters", "str", "int", "float"]
-  lifted := [("str", "_toStrScenic"), ("float", "_toFloatScenic"), ("int", "_toIntScenic")]
+  builtin := ["float", "globalParameters", "int", "str"]
+  lifted := [("float", "_toFloatScenic"), ("int", "_toIntScenic"), ("str", "_toStrScenic")]
   wrapStar := "wrapStarredValue"
   callStar := "callWithStarArgs"
   defaultBase := "Object"
